@@ -219,8 +219,29 @@ class Bicomplex(object):
         z02 = 0.5 * (z1 + 1j * z2) ** other
         return Bicomplex(z01 + z02, (z01 - z02) * 1j)
 
+    def _reciprocal(self):
+        z1, z2 = self.z1, self.z2
+        den = z1 * z1 + z2 * z2
+        return Bicomplex(z1 / den, -z2 / den)
+
+    def _pow_integer(self, n):
+        """Integer power by repeated multiplication (accurate in every component)."""
+        if n < 0:
+            return self._reciprocal()._pow_integer(-n)
+        out = Bicomplex(np.ones(self.shape), np.zeros(self.shape))
+        base = self
+        while n > 0:
+            if n % 2 == 1:
+                out = out * base
+            n //= 2
+            if n > 0:
+                base = base * base
+        return out
+
     def __pow__(self, other):
-        # TODO: Check correctness
+        if isinstance(other, (int, np.integer)) or (isinstance(other, (float, np.floating))
+                                                    and float(other).is_integer()):
+            return self._pow_integer(int(other))
         out = (self.log() * other).exp()
         non_invertible = np.abs(self.mod_c()) < 1e-15
         if non_invertible.any():
